@@ -530,6 +530,9 @@ func (g *gen) expr(t string, depth int) *Expr {
 				}
 				switch r.Intn(4) {
 				case 0:
+					if r.Intn(3) == 0 {
+						return eNeg(conv()) // (number of a number hands its argument through: the operator must not touch it)
+					}
 					return conv()
 				case 1:
 					return eBin([]string{"add", "sub", "mul", "div", "mod"}[r.Intn(5)], conv(), []*Expr{eNum(1, 1), eNum(2, 1), eNum(1, 2)}[r.Intn(3)])
@@ -592,6 +595,11 @@ func (g *gen) expr(t string, depth int) *Expr {
 			return eCall("visited_count", eStr(g.titles[r.Intn(len(g.titles))]))
 		}
 	case "b":
+		if g.cfg.MathHeavy && depth > 0 && r.Intn(6) == 0 {
+			// a unary operator directly on a conversion that hands its argument through (bool of a boolean):
+			// the literal is part of the program, the same every time the statement runs
+			return eNot(eCall("bool", []*Expr{eBool(false), eBool(true), g.varOf("b")}[r.Intn(3)]))
+		}
 		if leaf {
 			switch r.Intn(3) {
 			case 0:
@@ -716,6 +724,14 @@ func (g *gen) lineStmt() Stmt {
 			return eCall("p1", eStr(""))
 		}
 		return Stmt{K: "line", Text: [][]Part{{{E: empty()}, {Lit: " "}, {E: empty()}}, {{E: empty()}}, {{E: empty()}, {Lit: "  "}, {E: eStr(" ")}}}[r.Intn(3)]}
+	}
+	if len(g.vnames) > 0 && !g.cfg.Huge && r.Intn(14) == 0 {
+		// a line that is nothing but one inline expression: its text is the value of the moment, every time it is shown
+		t := []string{"n", "b", "s"}[r.Intn(3)]
+		if r.Intn(2) == 0 {
+			return Stmt{K: "line", Text: []Part{{E: g.varOf(t)}}}
+		}
+		return Stmt{K: "line", Text: []Part{{E: g.expr(t, 1)}}}
 	}
 	parts := []Part{{Lit: fmt.Sprintf("L%d", g.lineNo)}}
 	n := r.Intn(3)
